@@ -30,8 +30,11 @@ pub mod c02_jumps;
 pub mod qk;
 pub mod c04_action;
 pub mod c04_map;
+pub mod c06_remap;
 pub mod c09_kernels;
+pub mod c11_inner;
 pub mod c13_merge;
+pub mod c14_nest;
 pub mod c16_code;
 pub mod c18_desc;
 pub mod c18_names;
@@ -43,7 +46,10 @@ pub fn all() -> Vec<(&'static str, fn())> {
 	v.extend_from_slice(c02_jumps::LIST);
 	v.extend_from_slice(c04_action::LIST);
 	v.extend_from_slice(c04_map::LIST);
+	v.extend_from_slice(c06_remap::LIST);
 	v.extend_from_slice(c09_kernels::LIST);
+	v.extend_from_slice(c11_inner::LIST);
+	v.extend_from_slice(c14_nest::LIST);
 	v.extend_from_slice(c13_merge::LIST);
 	v.extend_from_slice(c16_code::LIST);
 	v.extend_from_slice(c18_desc::LIST);
